@@ -18,6 +18,7 @@ MIN_DEN = 0.001
 SAFETY_KNOWN = {
     "safety.div[opendsm/common/metrics.py::_safe_divide]": "C16-safe-divide",
     "safety.div[opendsm/common/metrics.py::ReportingMetrics.fsu]": "C16-fsu-zero-savings",
+    "safety.div[opendsm/eemeter/models/daily/model.py::DailyModel._get_error_metrics]": "C16-daily-ratio-unguarded",
 }
 
 
@@ -145,3 +146,82 @@ def gate_hourly(cv_none, pn_none, cv: Real, pn: Real, cv_thr: Real, pn_thr: Real
     pn_pass = False if pn_none else pn < pn_thr
     accepted = True if ok else False
     check("C16.gate.hourly", iff(accepted, Or(cv_pass, pn_pass)))
+
+
+# ----------------------------------------------------------------------------------------------------------------------------------
+# which rows the statistics are computed on (row-wise model: one arbitrary row of an arbitrary input frame)
+
+BM_DF = repo("opendsm/common/metrics.py::BaselineMetrics._df")
+RM_DF = repo("opendsm/common/metrics.py::ReportingMetrics._df")
+OPAQUE = {"opendsm/common/pydantic_utils.py::PydanticDf": "checked_frame"}
+
+NUM = 0
+NAN = 1
+
+
+def checked_frame(df=None, column_types=None):
+    # PydanticDf validates column names / dtypes and hands the same frame back (assumed; pydantic is in the trusted base)
+    return new_object(None, df=df)
+
+
+ROW_CASES = [{"which": "baseline"}, {"which": "reporting"}]
+
+
+@harness("C16.rows", prop="C16", cases=ROW_CASES, permissive=True)
+def finite_pairs(which):
+    """the statistics are those of the FINITE observed / predicted pairs: a row enters exactly when both values are ordinary numbers (not NaN,
+    not +-inf), with its values unchanged; the baseline residual of a row is observed - predicted; the caller's frame is not written"""
+    src = row_frame(["observed", "predicted", "other"], label="input")
+    ko = cell_kind(src, "observed")
+    kp = cell_kind(src, "predicted")
+    vo = cell_val(src, "observed")
+    vp = cell_val(src, "predicted")
+    both = And(ko == NUM, kp == NUM)
+    if which == "baseline":
+        m = new_object(BM, df=src, num_model_params=1)
+        out = BM_DF(m)
+    else:
+        m = new_object(RM, reporting_df=src)
+        out = RM_DF(m)
+    check("C16.rows.finite_pairs_only." + which, out.mult == ite(both, src.mult, 0))
+    check("C16.rows.values_kept." + which, implies(both, And(cell_kind(out, "observed") == NUM, cell_val(out, "observed") == vo,
+                                                             cell_kind(out, "predicted") == NUM, cell_val(out, "predicted") == vp)))
+    if which == "baseline":
+        check("C16.rows.residual", implies(both, And(cell_kind(out, "residuals") == NUM, cell_val(out, "residuals") == vo - vp)))
+    check("C16.rows.input_untouched." + which, Not(src.mutated))
+    cover("C16.cover.rows.inf." + which, And(ko == 2, kp == NUM))
+    cover("C16.cover.rows.kept." + which, both)
+
+
+# ----------------------------------------------------------------------------------------------------------------------------------
+# the statistics a daily / billing model reports (and gates on): DailyModel._get_error_metrics
+
+DM = repo("opendsm/eemeter/models/daily/model.py::DailyModel")
+
+
+@harness("C16.daily_error", prop="C16")
+def daily_error(n: Int, wsse: Real):
+    """RMSE / MAE are those of the residuals, CVRMSE is RMSE / mean(observed), PNRMSE is RMSE / (95th - 5th percentile of observed) -- the plain RMSE,
+    not the weighted one the split search minimises"""
+    assume(And(n >= 2, wsse >= 0))
+    df = agg_frame(n=n, label="fit", columns=["resid", "obs"])
+    comp = new_object(None, wSSE=wsse, N=n, resid=df["resid"], obs=df["obs"])
+    m = new_object(DM, best_combination="fw-su_sh_wi", fit_components={"fw-su_sh_wi": comp})
+    out = m._get_error_metrics("fw-su_sh_wi")
+    wrmse = out[0]
+    rmse = out[1]
+    mae = out[2]
+    cvrmse = out[3]
+    pnrmse = out[4]
+    sse = (df["resid"] ** 2).sum()
+    mean_obs = df["obs"].sum() / n
+    q = repo("opendsm/common/metrics.py::np").quantile(df["obs"], [0.05, 0.95])
+    spread = q[1] - q[0]
+    check("C16.daily_error.rmse", And(rmse >= 0, rmse * rmse * n == sse))
+    check("C16.daily_error.wrmse", And(wrmse >= 0, wrmse * wrmse * n == wsse))
+    check("C16.daily_error.mae", mae * n == df["resid"].abs().sum())
+    check("C16.daily_error.cvrmse", implies(mean_obs != 0, cvrmse * mean_obs == rmse))
+    check("C16.daily_error.pnrmse", implies(spread != 0, pnrmse * spread == rmse))
+    # the function always answers with a number: right only where the denominator is safely positive (recorded finding elsewhere)
+    check("C16.daily_error.cvrmse.defined_only_if_safe", mean_obs > 0, finding="C16-daily-ratio-unguarded", unless=mean_obs <= 0)
+    check("C16.daily_error.pnrmse.defined_only_if_safe", spread > 0, finding="C16-daily-ratio-unguarded", unless=spread <= 0)
